@@ -21,11 +21,11 @@ PROP = "C10"
 METRICS = ["DSC", "IOU", "RVD"]
 META = {
     "bounds": {"quick": "bounding boxes of symbolic non-empty maps 1-D 5 and 2-D 2x3 with pad 0..2; per-instance crop vs. uncropped kernels on 1-D 8 binary maps; embedding of 1-D 3 maps into length 6 at every offset and of 1x3 into 2x4; "
-                        "reversal of 1-D 3 maps and transposition / flip of 1x3 maps through the whole pipeline (unmatched input, free matching threshold)",
+                        "reversal of 1-D 3 maps, transposition / flip of 1x3 maps and one slice of the 2x2 transposition cases through the whole pipeline (unmatched input, free matching threshold); ASSD kernel of 1-D 3 masks vs. the masks embedded in length 5 at a symbolic offset",
                "thorough": "bounding boxes 3x3 and 2x2x2; crop on 1-D 10; embeddings of 1-D 4 and of 2x2 into 3x3; reversal of 1-D 4 and transposition / both flips of 2x2 maps"},
     "stubs": ["multiprocessing.Pool := serial"],
     "assumptions": ["memory layout (C / Fortran order, negative strides) has no counterpart in the array model: not decidable by this technique; replays run every witness additionally as non-contiguous views on the real package",
-                    "ASSD under these transformations is covered by the oracle-side symmetry of C07's definition, not re-run here", "paths with tied competing candidates are excluded"],
+                    "ASSD under embedding is decided on the kernel alone (1-D 3 in 5/6 at a symbolic offset), not through the whole pipeline", "paths with tied competing candidates are excluded"],
     "nontrivial_rule": "paths with at least one true positive whose instance touches the array border",
 }
 
@@ -41,7 +41,11 @@ def cases(tier):
     n1 = 3 if tier == "quick" else 4
     for off in range(0, 4):
         out.append({"name": "embed_1d_%d_off%d" % (n1, off), "what": "embed", "shape": (n1,), "big": (n1 + 3,), "offset": (off,)})
+    out.append({"name": "assd_embed_1d", "what": "assd_embed", "n": 3, "N": 5 if tier == "quick" else 6})
     if tier == "quick":
+        # one slice of the 2x2 transposition cases of the thorough tier (first voxels fixed to 1/1): its witnesses are the ones replayed
+        # under mixed memory layouts on the real package
+        out.append({"name": "sym_2x2_transpose_f4", "what": "sym", "shape": (2, 2), "op": "transpose", "fix2": [1, 1]})
         # three voxels per map: 1-D reversal, embedding of a 1x3 map into 2x4, and axis permutation / flips of a 1x3 map
         out.append({"name": "embed_1x3_in_2x4", "what": "embed", "shape": (1, 3), "big": (2, 4), "offset": (1, 1)})
         out.append({"name": "reverse_1d", "what": "sym", "shape": (3,), "op": "flip0"})
@@ -84,6 +88,11 @@ def embed(cells, shape, big, offset):
 
 
 def run_case(case):
+    if case["what"] == "assd_embed":
+        # the ASSD code path alone vs. the same masks zero-padded at a symbolic offset: C07's embedding harness, reported under this property
+        from . import C07
+        C07.PROP = PROP
+        return C07.run_case(dict(case, what="embed"))
     from ..twin import get_twin
     T = get_twin()
     NU = T.mod("panoptica.utils.numpy_utils")
@@ -271,6 +280,9 @@ def real_tworun(case, mode, expect):
         variants.append((op + " (view, non-contiguous)", f(pred), f(ref)))
         variants.append((op + " (contiguous copy)", np.ascontiguousarray(f(pred)), np.ascontiguousarray(f(ref))))
         variants.append(("Fortran-ordered copy of the original", np.asfortranarray(pred), np.asfortranarray(ref)))
+        # the two arrays need not share a memory layout (validation only: the symbolic array model has no layout)
+        variants.append(("original, prediction Fortran-ordered / reference C-ordered", np.asfortranarray(pred), np.ascontiguousarray(ref)))
+        variants.append((op + " (prediction a non-contiguous view, reference a contiguous copy)", f(pred), np.ascontiguousarray(f(ref))))
 
     def run(p, r):
         res = RC.build_evaluator(cfg).evaluate(p, r, verbose=False)["ungrouped"][0]
@@ -301,4 +313,9 @@ def real_tworun(case, mode, expect):
     return {"match": ok, "why": None if ok else "twin %s real %s" % (expect, a), "violates": bad is not None, "reason": bad, "observed": None}
 
 
-REAL = {"bbox": real_bbox, "crop": real_crop, "tworun": real_tworun}
+def _real_assd_embed(case, mode, expect):
+    from . import C07
+    return C07.real_embed(case, mode, expect)
+
+
+REAL = {"bbox": real_bbox, "crop": real_crop, "tworun": real_tworun, "embed": _real_assd_embed}
